@@ -15,7 +15,8 @@ RULE = ("each case: 1-8 servers, each with an announcement (explicit permutation
         "SHA1(si+seed)), identical for both brokers; with for_upload=True exactly the servers whose reference certificate predicate holds at the current clock value, in the "
         "same order.  Grid family: 3-7 servers announcing certificates (valid, lapsing between phases, expired, foreign-signed, none), a client configured with the "
         "grid-manager key performs immutable uploads, mutable creates and overwrites in three phases (clock T0, +100 s, +200 s; servers going down); oracle: a server without a "
-        "currently valid certificate is never sent an immutable allocation and never gains a share number it did not hold. Non-trivial = >=3 servers with a preferred one, or keys configured with both permitted and excluded servers; distinct by whole case.")
+        "currently valid certificate is never sent an immutable allocation and never gains a share number it did not hold. Non-trivial = >=3 servers with a preferred one, or keys configured with both permitted and excluded servers; distinct by whole case."
+        ' In half of the cases the preferred list reaches the client through `[client] peers.preferred` in a configuration file (StorageClientConfig.from_node_config).')
 LEVEL_TEXT = "Differential search against a reference ordering and the certificate ground truth."
 ASSUMPTIONS = ["servers are created by StorageFarmBroker._make_storage_server from their announcement (Foolscap, or HTTP when the announcement carries NURLs and force_foolscap is off) and marked connected by the harness (no network)", "the broker's certificate clock (grid_manager.current_datetime_with_zone) is replaced by the harness clock"]
 REQUIRED_CLASSES = ["preferred-from-tahoe-cfg", "preferred", "seed-from-key", "seed-explicit", "upload-filtered", "upload-all-permitted", "cert-expires-between-clock-values", "http-server", "foolscap-server", "grid-mixed-permitted", "publish-with-shares-on-server-whose-certificate-lapsed", "share-placed-on-permitted-server"]
